@@ -41,7 +41,7 @@ func init() {
 		Level:  "fault_enumeration",
 		Quick:  tierCfg{Runs: 66000, Deadline: 100, RunMS: 60000, MinimiseS: 40},
 		Thor:   tierCfg{Runs: 4000000, Deadline: 1500, RunMS: 60000, MinimiseS: 240},
-		Rule:   "two families. tls-record-sweep (enumerated): for a seed-chosen small GMSSL session (every record <= 128 bytes) one simulated run per fault position — every bit of every protected record (Finished, data, close_notify) of both directions, every truncation length, extension by 1..32 bytes, drop, duplicate, adjacent swap, length-field+1; run k of the family is position k of session k/12330. tls-record-attack (sampled): payloads up to 16 KiB per write, both GM suites and TLS suites, 15 fault kinds incl. replay of earlier records, cross-direction and cross-connection injection, header rewrites, FIN before/inside a record, on a drawn record under drawn network behaviour and schedules. Oracle: delivered bytes are a prefix of sent bytes after every Read; exactly the plaintext of the records before the first affected one (computed by the independent decoder from the sender's capture and key log); non-EOF sticky error; fatal alert on the wire; IV/nonce/sequence audit of every session. distinct_nontrivial = distinct signatures (suite, fault kind, direction, affected record and its type, bit class / exact position in sweep runs) among runs in which the fault actually fired.",
+		Rule:   "families: tls-conn-replay (the recorded byte stream of a whole honest connection - full or abbreviated handshake, client side or server side - played to a fresh endpoint of the same configuration must not complete nor deliver anything); tls-record-writefault; tls-record-padding; and the two main ones. tls-record-sweep (enumerated): for a seed-chosen small GMSSL session (every record <= 128 bytes) one simulated run per fault position — every bit of every protected record (Finished, data, close_notify) of both directions, every truncation length, extension by 1..32 bytes, drop, duplicate, adjacent swap, length-field+1; run k of the family is position k of session k/12330. tls-record-attack (sampled): payloads up to 16 KiB per write, both GM suites and TLS suites, 15 fault kinds incl. replay of earlier records, cross-direction and cross-connection injection, header rewrites, FIN before/inside a record, on a drawn record under drawn network behaviour and schedules. Oracle: delivered bytes are a prefix of sent bytes after every Read; exactly the plaintext of the records before the first affected one (computed by the independent decoder from the sender's capture and key log); non-EOF sticky error; fatal alert on the wire; IV/nonce/sequence audit of every session. distinct_nontrivial = distinct signatures (suite, fault kind, direction, affected record and its type, bit class / exact position in sweep runs) among runs in which the fault actually fired.",
 		Real:   realAll,
 		Stubs:  []string{"simnet (network)", "attacker relay tasks", "virtual clock", "entropy streams", "fixture PKI", "reftls decoder (expected plaintext per record, alerts, nonce audit)"},
 		Assume: []string{"reftls record layer written from GM/T 0024 / RFC 5246 / RFC 5288, cross-validated by decoding every benign C06 session", "TLS-suite sessions (no reference decoder) use the prefix + detection oracle only"},
@@ -57,7 +57,7 @@ func init() {
 		Level:     "exploration",
 		Quick:     tierCfg{Runs: 7000, RaceRuns: 800, Deadline: 60, RunMS: 120000, MinimiseS: 30},
 		Thor:      tierCfg{Runs: 1500000, RaceRuns: 300000, Deadline: 1200, RunMS: 90000, MinimiseS: 240},
-		Rule:      "each run draws a program (one shared sm4 cipher.Block; package-level SM2/SM3/SM4/X.509/PKCS#7 operations on separate data, optionally with the curve uninitialised; LRU session cache Get/Put; one CertPool under concurrent Verify; one established connection with 1-2 readers, 1-3 writers per side and an optional Close at a drawn instant; one server Config serving 2-5 simultaneous handshakes with ticket-key rotation and Clone; a client whose parked reader receives HelloRequests from a reference server while 1-4 other tasks call Handshake/Read(nil)/ConnectionState/Write, compared with the same session run with the reader alone; a Write or Read parked in the transport and interrupted by SetDeadline/SetReadDeadline/SetWriteDeadline from another task), 2..32 tasks and a scheduling policy (no preemption / mean gap 2, 12, 100 yield points / PCT with 1-3 priority change points); the scheduler owns every interleaving at statement, lock, once and atomic granularity. Oracles: result == result of the same call run alone beforehand; porcupine linearizability of the cache and of each connection direction (FIFO pipe with atomic writes); Go race detector evaluated on the simulated interleaving (race build; the baton is invisible to it); deadlock and panic. distinct_nontrivial = distinct run signatures (program, task count, policy) x schedule hash among runs with at least one preemption or contended switch.",
+		Rule:      "each run draws a program (one shared sm4 cipher.Block; package-level SM2/SM3/SM4/X.509/PKCS#7 operations on separate data, optionally with the curve uninitialised; LRU session cache Get/Put; one CertPool under concurrent Verify; one established connection with 1-2 readers, 1-3 writers per side and an optional Close at a drawn instant; one server Config serving 2-5 simultaneous handshakes with ticket-key rotation and Clone; a client whose parked reader receives HelloRequests from a reference server while 1-4 other tasks call Handshake/Read(nil)/ConnectionState/Write, compared with the same session run with the reader alone; a Write or Read parked in the transport and interrupted by SetDeadline/SetReadDeadline/SetWriteDeadline from another task; 2-6 simultaneous first handshakes asking one multi-certificate Config for different names, compared with lone handshakes on fresh Configs), 2..32 tasks and a scheduling policy (no preemption / mean gap 2, 12, 100 yield points / PCT with 1-3 priority change points); the scheduler owns every interleaving at statement, lock, once and atomic granularity. Oracles: result == result of the same call run alone beforehand; porcupine linearizability of the cache and of each connection direction (FIFO pipe with atomic writes); Go race detector evaluated on the simulated interleaving (race build; the baton is invisible to it); deadlock and panic. distinct_nontrivial = distinct run signatures (program, task count, policy) x schedule hash among runs with at least one preemption or contended switch.",
 		Real:      realAll,
 		Stubs:     []string{"cooperative scheduler + baton (replaces the Go scheduler's choices; OnSite/Boost place a concurrent call at a drawn statement)", "simnet", "entropy streams", "fixture PKI", "porcupine (checker)"},
 		Assume:    []string{"race detector's bounded shadow history can miss a race, it cannot invent one", "statement-level yields only in the listed files; elsewhere preemption happens at lock/once/atomic/network points"},
@@ -70,7 +70,7 @@ func init() {
 		Level:  "exploration",
 		Quick:  tierCfg{Runs: 40000, Deadline: 70, RunMS: 60000, MinimiseS: 40},
 		Thor:   tierCfg{Runs: 6000000, Deadline: 1500, RunMS: 60000, MinimiseS: 240},
-		Rule:   "each run puts one gmtls endpoint (client; server in GMSSL-only, auto-switch or TLS mode; with or without client authentication; both GM suites) against the scripted reference peer on simnet and draws a script: honest; 1-3 wire deviations at drawn message indices (wrong type, duplicate, omit, truncation with/without length adjustment, rewritten length/count bytes, rewritten handshake length, inserted application data / ChangeCipherSpec / unknown record / alerts, end of stream before or inside any record, stall, oversized record, wrong record version, warning alerts, empty records; legal: fragmentation, coalescing); hello-level content (version 0x0000..0x0400, suite lists, compression, unknown extensions; ServerHello version/suite/compression; certificate lists incl. non-EC keys); or a stall with a virtual-time read deadline. The reference peer keeps its honest transcript, so any deviation that changes handshake bytes must make the endpoint fail. Oracle: error and never complete for violations, completion + data for legal variations, no panic, endpoint returns once the peer's stream ended, timeout error at the virtual deadline. distinct_nontrivial = distinct signatures (role, script text, deviation kinds and positions) among non-honest runs.",
+		Rule:   "tls-scripted-reneg (one run in eight): a client that allows renegotiation completes an honest handshake with the reference server, which then requests a renegotiation, takes the new ClientHello and misbehaves in one of seven ways; the Read that ran the second handshake must fail and Handshake/ConnectionState/Read/Write are probed afterwards. tls-scripted-peer: each run puts one gmtls endpoint (client; server in GMSSL-only, auto-switch or TLS mode; with or without client authentication; both GM suites) against the scripted reference peer on simnet and draws a script: honest; 1-3 wire deviations at drawn message indices (wrong type, duplicate, omit, truncation with/without length adjustment, rewritten length/count bytes, rewritten handshake length, inserted application data / ChangeCipherSpec / unknown record / alerts, end of stream before or inside any record, stall, oversized record, wrong record version, warning alerts, empty records; legal: fragmentation, coalescing); hello-level content (version 0x0000..0x0400, suite lists, compression, unknown extensions; ServerHello version/suite/compression; certificate lists incl. non-EC keys); or a stall with a virtual-time read deadline. The reference peer keeps its honest transcript, so any deviation that changes handshake bytes must make the endpoint fail. Oracle: error and never complete for violations, completion + data for legal variations, no panic, endpoint returns once the peer's stream ended, timeout error at the virtual deadline. distinct_nontrivial = distinct signatures (role, script text, deviation kinds and positions) among non-honest runs.",
 		Real:   realAll,
 		Stubs:  []string{"simnet (network)", "virtual clock", "entropy streams", "fixture PKI", "reftls scripted peer (independent GM/T 0024 client and server; TLS 1.2 client and server with RSA and ECDHE_RSA key exchange, AES/SHA/curves from the Go standard library)"},
 		Assume: []string{"reftls endpoints interoperate with unmodified gmtls in both roles (honest scripts are part of every batch and must complete)"},
